@@ -11,7 +11,7 @@ import filesupport as fsup
 from props import c04, c05
 
 PROP = "C06"
-LEAN_MODULES = ["Props.C06", "Props.C05"]
+LEAN_MODULES = ["Props.C06", "Props.C06F", "Props.C05"]
 RULE = (
     "case = (register file definition with unambiguous identifiers, text content x). Contents are canonical lines "
     "perturbed by extra precision, odd spacing inside fields, right-aligned literals, explicit '+', Unicode digits, "
